@@ -48,7 +48,8 @@ type RunCtx struct {
 	// walk at an order-dependent point); the run is left out of the self-check.
 	UnorderedDigest bool
 	DigestUnstable  bool
-	KillOnExit      bool // crash scenarios: remaining tasks are killed (Goexit at their yield)
+	EnumIndex       uint64 // dense index of this run within its scenario, across workers (for exhaustive enumeration modes)
+	KillOnExit      bool   // crash scenarios: remaining tasks are killed (Goexit at their yield)
 }
 
 func (rc *RunCtx) Failf(rule, class, format string, a ...interface{}) {
@@ -154,6 +155,7 @@ func execRun(t *testing.T, sc *Scenario, tape *simrt.Tape, seed, run uint64, tie
 			sim.KeepTrace = keepTrace
 			defer sim.Close()
 			rc = &RunCtx{Prop: sc.Prop, Tape: tape, Sim: sim, Stats: res.Stats, Tier: tier, KnownHit: map[string]int{}}
+			rc.EnumIndex = enumIndexOf(run, len(scenarios[sc.Prop]))
 			rc.Known = knownSigs
 			// per-run knobs, drawn first so that they head the tape
 			tape.Strategy = tape.Choose(3, "strategy")
@@ -536,4 +538,20 @@ func traceStrings(s *simrt.Sim) []string {
 		out = append(out, fmt.Sprintf("%d t%d %s %s", e.Step, e.Task, e.Kind, e.Site))
 	}
 	return out
+}
+
+// enumIndexOf: workers take run indices w*10^7, w*10^7+1, ...; scenarios are
+// chosen round-robin by run index. The dense index of a run within its scenario,
+// interleaved across workers, lets enumeration modes cover 0..N-1 exactly once.
+func enumIndexOf(run uint64, nScenarios int) uint64 {
+	nw := uint64(envInt("VERIF_NWORKERS", 1))
+	if nw == 0 {
+		nw = 1
+	}
+	worker := run / 10000000
+	local := (run % 10000000) / uint64(nScenarios)
+	if worker >= nw {
+		return 1 << 62 // a replay or extra worker: never in the enumeration range
+	}
+	return local*nw + worker
 }
